@@ -33,6 +33,11 @@ func runC02(p *Prog, r *Report) {
 	r.Min("C02.R5", 2)
 	okFns := checkIPv4Typestate(p, r)
 	checkDstSubnetWriters(p, r, okFns)
+	checkPositionalTarget(p, r, okFns)
+	// --exclude is parsed on every option combination (a parse step left early ignores the exclusion file)
+	if checkEveryOptionParsed(p, r, "C02.R3", func(f string) bool { return f == "excludeIPs" }) < 2 {
+		r.Viol("C02.R3", "exclude-parsed/sites", "-", "both option families derive the exclusion list", "fewer than 2")
+	}
 	checkExclusionWiring(p, r)
 	checkFilterStage(p, r)
 	for _, fn := range parserSet(p) {
@@ -42,6 +47,22 @@ func runC02(p *Prog, r *Report) {
 	}
 	r.Min("C02.R6", 1+2+2)
 	checkDirectConnections(p, r)
+	// R8: the addresses and ports generated for a subnet / port range lie inside it: the iterator's running
+	// value starts at the masked network address, covers exactly the subnet's size and is rendered to a
+	// fixed 4-byte address (C01.R5 re-evaluated; a left-aligned big.Int.Bytes() rendering shifts 0.1.2.5 to
+	// 1.2.5.0 - an address outside the target set that the exclusion list was never asked about)
+	r.Min("C02.R8", 6)
+	{
+		sub1 := NewReport("C02x", "quick")
+		checkIteratorEmission(p, sub1)
+		for _, o := range sub1.Obs {
+			if o.Rule == "C01.R5" {
+				o2 := *o
+				o2.Rule = "C02.R8"
+				r.Obs = append(r.Obs, &o2)
+			}
+		}
+	}
 	// R7: the address the exclusion stage approved is the address that is probed: the generators hand over
 	// addresses and requests whose storage they never write again (no ring / scratch reuse)
 	r.Min("C02.R7", 5)
@@ -357,6 +378,28 @@ func checkIPv4Typestate(p *Prog, r *Report) map[*ssa.Function]bool {
 							why = "To4() result stored without a nil test (nil for IPv6 hosts: becomes 0.0.0.0)"
 						}
 					}
+					// the net/netip spelling: AsSlice() of an address for which Is4() holds on this path (4 bytes;
+					// Is4 is false for IPv4-mapped IPv6 and for zoned addresses), parsed by netip.ParseAddr
+					if c, isC := s.Resolve(ipv).(*ssa.Call); isC && calleeFull(&c.Call) == "(net/netip.Addr).AsSlice" && len(c.Call.Args) == 1 {
+						av := s.Resolve(c.Call.Args[0])
+						parsed := false
+						if ex, isEx := av.(*ssa.Extract); isEx && ex.Index == 0 {
+							if pc, isPC := ex.Tuple.(*ssa.Call); isPC && calleeFull(&pc.Call) == "net/netip.ParseAddr" {
+								parsed = true
+							}
+						}
+						is4 := false
+						for _, f := range s.Facts {
+							if fc, isFC := f.Cond.(*ssa.Call); isFC && f.Truth && calleeFull(&fc.Call) == "(net/netip.Addr).Is4" && len(fc.Call.Args) == 1 && s.Resolve(fc.Call.Args[0]) == av {
+								is4 = true
+							}
+						}
+						if parsed && is4 {
+							okIP = true
+						} else {
+							why = "AsSlice() of an address that is not established as Is4() on this path"
+						}
+					}
 				}
 				okMask := false
 				if mv, has := lf["Mask"]; has {
@@ -447,6 +490,70 @@ func checkDstSubnetWriters(p *Prog, r *Report, okFns map[*ssa.Function]bool) {
 		}
 	}
 	r.Count("DstSubnet_stores", n)
+}
+
+// checkPositionalTarget (R2): a target argument on the command line is never skipped. Every function of
+// package command that hands an element of its []string parameter (cobra's positional arguments) to the
+// IPv4-only target parser does so on every path on which an argument may be present: a returning path
+// without the parser call either fails, or is taken only when the argument list is empty. (A command line
+// such as `-f file 2001:db8::/64` is refused, not silently scanned from the file.)
+func checkPositionalTarget(p *Prog, r *Report, okFns map[*ssa.Function]bool) {
+	n := 0
+	for _, fn := range p.SrcFuncs() {
+		if fn.Pkg != p.SPkg("command") {
+			continue
+		}
+		var args *ssa.Parameter
+		for _, b := range fn.Blocks {
+			for _, in := range b.Instrs {
+				c, ok := in.(*ssa.Call)
+				if !ok || !okFns[StaticCallee(&c.Call)] || len(c.Call.Args) == 0 {
+					continue
+				}
+				for _, o := range p.Origins(c.Call.Args[0]) {
+					if u, isU := o.(*ssa.UnOp); isU && u.Op == token.MUL {
+						if ia, isIA := u.X.(*ssa.IndexAddr); isIA {
+							if prm, isP := ia.X.(*ssa.Parameter); isP && prm.Parent() == fn {
+								if sl, isS := prm.Type().Underlying().(*types.Slice); isS && types.TypeString(sl.Elem(), nil) == "string" {
+									args = prm
+								}
+							}
+						}
+					}
+				}
+			}
+		}
+		if args == nil {
+			continue
+		}
+		n++
+		name := FuncName(fn) + "/positional-target"
+		pos := p.Pos(fn.Pos())
+		fp := Paths(fn)
+		if fp.Truncated {
+			r.Undecided("C02.R2", name, pos, "the paths of the function that parses the target argument can be enumerated", "too many paths")
+			continue
+		}
+		ok, why := true, ""
+		var path []string
+		for _, s := range fp.Segs {
+			if !s.Returns() {
+				continue
+			}
+			parsed := len(s.CallsWhere(func(c *ssa.CallCommon) bool { return okFns[StaticCallee(c)] })) > 0
+			if parsed || retClass(s) == retFail {
+				continue
+			}
+			if lenFactsAllow(s, args, 1, nil) || lenFactsAllow(s, args, 2, nil) {
+				ok, why = false, "a path returns without failing and without parsing the target argument although the argument list may be non-empty on it (a non-IPv4 target is accepted silently)"
+				path = s.Describe(p)
+			}
+		}
+		r.Check(ok, "C02.R2", name, pos, "a target argument that is present is always handed to the IPv4-only target parser (paths that skip it fail or have an empty argument list)", why, path...)
+	}
+	if n < 3 {
+		r.Viol("C02.R2", "positional-target/sites", "-", "the packet-scan family, the generic family and the arp command each parse their target argument", fmt.Sprintf("found %d functions", n))
+	}
 }
 
 // ---- R3 ----
